@@ -1,9 +1,8 @@
 """C06: `lentil.field._merge_slices` — the per-field slice of the general (non-origin) branch.
 
 The loop body `frmin, ... = field.extent; row = slice(frmin-rmin, frmax-rmin+1); col = slice(fcmin-cmin, fcmax-cmin+1)` is
-translated as a function of the bounding box (`rmin, rmax, cmin, cmax = boundary(fields)`) and one field extent. The hand
-model `Lentil.mergeL` (Model/Field.lean) writes the same closed form in its guard; `Props/C06.merge_slices_spec` proves the
-generated definition equal to it and in range, so a change of `_merge_slices` breaks that theorem."""
+translated as a function of the bounding box (`rmin, rmax, cmin, cmax = boundary(fields)`) and one field extent. `Lentil.mergeL` (Model/Field.lean) addresses its members through this generated definition (`Gen.mergeSlice`), so a change of
+`_merge_slices` flows into `merge_emb`; `Props/C06.merge_slices_spec` states its closed form and that it is in range."""
 import ast
 from py2lean import V, Refuse
 
@@ -27,5 +26,5 @@ FIELDMERGE = {
 }
 
 MODULES = [
-    {'name': 'FieldMerge', 'src': 'lentil/field.py', 'sigs': FIELDMERGE, 'props': ['C06'], 'imports': []},
+    {'name': 'FieldMerge', 'src': 'lentil/field.py', 'sigs': FIELDMERGE, 'props': ['C06', 'C07', 'C02', 'C03'], 'imports': []},
 ]
